@@ -228,9 +228,32 @@ func (f *Formatter) formatArgument(arg *ast.Argument) {
 	f.writeString(arg.Value.String())
 }
 
+// walkDirectiveList collects variables used in directive arguments, f.e. @skip(if: $someVariable)
+func (f *Formatter) walkDirectiveList(dl ast.DirectiveList, res map[string]string) {
+	for _, d := range dl {
+		if d.Definition == nil {
+			continue
+		}
+		for _, a := range d.Arguments {
+			if a.Value == nil || a.Value.Kind != ast.Variable {
+				continue
+			}
+			if ad := d.Definition.Arguments.ForName(a.Name); ad != nil {
+				res[a.Value.Raw] = ad.Type.String()
+			}
+		}
+	}
+}
+
 func (f *Formatter) walkArgumentList(s ast.SelectionSet) map[string]string {
 	res := make(map[string]string)
+	for _, sel := range s {
+		if frag, ok := sel.(*ast.InlineFragment); ok {
+			f.walkDirectiveList(frag.Directives, res)
+		}
+	}
 	for _, field := range common.SelectionSetToFields(s, nil) {
+		f.walkDirectiveList(field.Directives, res)
 		for _, a := range field.Arguments {
 			if field.Definition == nil || field.Definition.Arguments == nil {
 				break
